@@ -104,6 +104,33 @@ pub fn shadow_zoo(ctx: &Ctx, rng: &mut impl RngCore, nrand: usize) -> Vec<SE> {
         let other = MEl { pt: c.torque(&m.pt), class: "other-rep" };
         out.push(present(c, &other, if i % 2 == 0 { None } else { Some(&lam[(i + 1) % lam.len()]) }));
     }
+    // every projective coordinate in turn equal to a distinguished constant (1, -1, 2, and the values whose
+    // internal form is the integer 1 / whose canonical form is the internal form of 1) while Z != 1: a guard
+    // that recognises "normalised" or "one" on the wrong coordinate or the wrong representation
+    {
+        let r = (b(1) << 256) % &c.f.p;
+        let rinv = c.f.inv(&r).unwrap();
+        let consts = [b(1), &c.f.p - b(1), b(2), r.clone(), rinv.clone(), c.f.mul(&rinv, &rinv)];
+        let picks: Vec<&MEl> = zoo.iter().filter(|m| m.pt.x != b(0) && m.pt.y != b(0)).collect();
+        let n = picks.len();
+        let idx: Vec<usize> = if n == 0 { vec![] } else { vec![0, 1 % n, 2 % n, n / 2, n - 1] };
+        for (j, &ix) in idx.iter().enumerate() {
+            let m = picks[ix];
+            let m = if j % 2 == 1 { MEl { pt: c.torque(&m.pt), class: m.class } } else { MEl { pt: m.pt.clone(), class: m.class } };
+            for coord in [m.pt.x.clone(), m.pt.y.clone(), b(1), c.f.mul(&m.pt.x, &m.pt.y)] {
+                let ci = c.f.inv(&coord).unwrap();
+                for t in &consts {
+                    let l = c.f.mul(t, &ci);
+                    if l == b(1) {
+                        continue;
+                    }
+                    let mut s = present(c, &m, Some(&l));
+                    s.class = "rescaled-coordinate-is-constant";
+                    out.push(s);
+                }
+            }
+        }
+    }
     out
 }
 
